@@ -257,7 +257,15 @@ func runVec(rep *Report, v *Vec, rng *rand.Rand, fresh map[string]bool) {
 	}
 	created := time.Date(2023, 4, 5, 6, 7, 8, rng.Intn(1e9), time.UTC)
 	e := &eventlogger.Event{Type: eventlogger.EventType(typ), CreatedAt: created, Payload: payload, Formatted: map[string][]byte{}}
-	out, err := ff.Process(context.Background(), e)
+	// the outcome does not depend on the state of the context: a document whose type is listed is signed or refused,
+	// never forwarded unsigned because the request behind it has been given up
+	pctx := context.Background()
+	if rng.Intn(3) == 0 {
+		c, cancel := context.WithCancel(pctx)
+		cancel()
+		pctx = c
+	}
+	out, err := ff.Process(pctx, e)
 	func() {
 		if held.e != nil {
 			if cur, ok := held.e.Format(held.key); !ok || !bytes.Equal(cur, held.doc) {
